@@ -1,0 +1,10 @@
+//go:build verif
+
+// Contracts for package ir, checked by /verif/govc (comment-only file).
+package ir
+
+// ---- C17: loop-nest normalisation recurses at most MaxLoopAnalysisDepth deep
+//@ func (*Canonicalizer).normalizeInductionVariablesRecursive
+//@   noframe
+//@   protocol-only C17
+//@   decreases [C17.term] MaxLoopAnalysisDepth - depth
